@@ -2,7 +2,7 @@
 
 Result sets are produced by REAL queries on a persisted synthetic database whose taxon names, genome descriptions and query labels are drawn from a
 string alphabet (plain, comma, double quote, newline, CRLF, non-ASCII, empty, leading/trailing blank, '=1+1', bare carriage return): every assignment of
-the alphabet to the three string roles (10^3), strict in {no, yes}; the 7-query batch covers: no prediction, reportable prediction, prediction on an
+the alphabet to the three string roles (10^3), strict in {no, yes}; the 9-query batch covers: no prediction, reportable prediction, prediction on an
 unreportable taxon with a reportable ancestor / with none, strict conflict with consensus + warning, strict failure with error, input with and
 without a source file; float32 distances with long decimal expansions.
 Oracle: CSV parse-back (csv.reader) vs the result object through the documented column list (written out here independently); JSON parse + agreement
@@ -23,7 +23,7 @@ RULE = ('every assignment of the 10-string alphabet to (taxon names, genome desc
         'export of one result set, compared item by item; non-trivial = the assignment contains at least one string that needs quoting / escaping / is non-ASCII')
 ASSUMPTIONS = [
 	'exporter objects are reused across the exports of a task (databases with equal primary keys but different texts) and, in a second pass, created afresh',
-	'one taxonomy shape and a 7-query batch; strings drawn from a 10-element alphabet',
+	'one taxonomy shape and a 9-query batch; strings drawn from a 10-element alphabet',
 	'CSV read back with csv.reader over newline-preserving text (newline=""), as the csv module documents',
 ]
 
@@ -35,7 +35,7 @@ COLUMNS = ['query', 'predicted.name', 'predicted.rank', 'predicted.ncbi_id', 'pr
            'next.name', 'next.rank', 'next.ncbi_id', 'next.threshold']
 
 DEEP = 40
-QSEGS = [[0, 1, 2], [9], [10, 11], [0, 1, 2, 8, 9], [0, 1, 2, 4, 5, 6], [8, 9], [0, 1]]
+QSEGS = [[0, 1, 2], [9], [10, 11], [0, 1, 2, 8, 9], [0, 1, 2, 4, 5, 6], [8, 9], [0, 1], [8, 9, 10], [8, 10]]        # the last two: next taxon = the unreportable species
 
 
 def plan(tier, seed):
@@ -346,6 +346,8 @@ def result_kinds(res):
 			k.add('input_without_file')
 		if cr.next_taxon is None:
 			k.add('no_next_taxon')
+		elif not cr.next_taxon.report:
+			k.add('unreportable_next_taxon')
 	return k
 
 
@@ -364,7 +366,7 @@ def build_db(dbdir, s_tax, s_gen, variant):
 
 def finalize(agg, tier):
 	for k in ('no_prediction', 'reportable_prediction', 'report_taxon_above_prediction', 'prediction_with_no_reportable_taxon', 'strict_failure_with_error',
-	          'with_warnings', 'input_without_file', 'no_next_taxon'):
+	          'with_warnings', 'input_without_file', 'no_next_taxon', 'unreportable_next_taxon'):
 		agg.require('kind_' + k, 10)
 	agg.require('file_exports', 8)
 	agg.require('timestamp_shapes', 8)
@@ -403,7 +405,7 @@ MANIFEST = dict(
 	engine='E-enum',
 	technique='exhaustive enumeration of string-alphabet assignments to the three text roles x strictness, real queries on a real database, parse-back oracles for the 3 export formats',
 	text='All 10^3 assignments of a 10-string alphabet (comma, quote, newline, CRLF, non-ASCII, empty, blanks, formula-like, bare CR) to taxon names, genome '
-	     'descriptions and query labels, strict and non-strict, on a 7-query batch covering every result kind, are exported by the real CSV / JSON / archive '
+	     'descriptions and query labels, strict and non-strict, on a 9-query batch covering every result kind, are exported by the real CSV / JSON / archive '
 	     'writers and read back: CSV by csv.reader against the documented columns, JSON against the object and the CSV row, archive by the real reader with '
 	     'equality plus bit-exact distances, warnings, errors and parameters.',
 	note='one taxonomy shape; known finding: a bare carriage return inside a field is not quoted by the CSV writer (pinned to exactly that input).',
